@@ -9,6 +9,7 @@ import (
 	"errors"
 	"fmt"
 	"net"
+	"regexp"
 	"time"
 
 	"github.com/insomniacslk/dhcp/dhcpv4"
@@ -340,7 +341,7 @@ func (st *ex4State) op(kind string, fn func(o *ex4Op)) *ex4Op {
 	s.LeaveSUT()
 	o.retT = s.Now()
 	o.returned = true
-	o.retSeq = s.Ev("op.return", len(st.ops)-1, 0, fmt.Sprintf("%s err=%v", kind, o.err), nil)
+	o.retSeq = s.Ev("op.return", len(st.ops)-1, 0, fmt.Sprintf("%s err=%s", kind, logErr(o.err)), nil)
 	st.cur = nil
 	return o
 }
@@ -400,8 +401,23 @@ func (st *ex4State) round(cl *nclient4.Client, w int) {
 
 // ---- network
 
+var hexIDs = regexp.MustCompile(`0x[0-9a-fA-F]{2,}`)
+
+// logErr renders an error for the event log: transaction ids the library chose at random
+// must not make two executions of one tape differ.
+func logErr(err error) string {
+	if err == nil {
+		return "<nil>"
+	}
+	return hexIDs.ReplaceAllString(err.Error(), "0x<id>")
+}
+
 func (st *ex4State) clientTx(b []byte, dest *net.UDPAddr) {
 	s, t := st.s, st.tape
+	if dest != nil {
+		// a copy: what the destination was when the datagram left, not what the address object says later
+		dest = &net.UDPAddr{IP: append(net.IP(nil), dest.IP...), Port: dest.Port, Zone: dest.Zone}
+	}
 	tx := &ex4Tx{t: s.Now(), raw: b, dest: dest}
 	tx.p, tx.ok = parseBootp(b)
 	tx.seq = s.Ev("tx", -1, int64(tx.p.typ()), fmt.Sprintf("xid=%s dest=%v", st.xn(tx.p.xid), dest), nil)
